@@ -664,9 +664,11 @@ where
         // during the current revision and thus obtained an `&` reference to those fields
         // that is still live.
 
+        let last_updated_at_before_lock;
         {
             // SAFETY: `updated_at` is never exclusively borrowed, so borrowing it is sound
             let last_updated_at = unsafe { (*data_raw).updated_at.load() };
+            last_updated_at_before_lock = last_updated_at;
             assert!(
                 last_updated_at.is_some(),
                 "two concurrent writers to {id:?}, should not be possible"
@@ -701,6 +703,32 @@ where
                 );
             }
         }
+
+        // Updating the fields runs user code (`Update` / `PartialEq` of the field types). If it
+        // panics, release the write lock again by restoring the previous stamp: the creating
+        // query keeps its old memo and will update the struct again when it is re-executed.
+        // Without this the struct stays write-locked forever and every later execution of the
+        // creator panics with "two concurrent writers".
+        struct ReleaseWriteLockOnUnwind<'a> {
+            updated_at: &'a OptionalAtomicRevision,
+            previous: Option<Revision>,
+            was_panicking: bool,
+        }
+
+        impl Drop for ReleaseWriteLockOnUnwind<'_> {
+            fn drop(&mut self) {
+                if !self.was_panicking && crate::sync::thread::panicking() {
+                    self.updated_at.swap(self.previous);
+                }
+            }
+        }
+
+        let _release_on_unwind = ReleaseWriteLockOnUnwind {
+            // SAFETY: `updated_at` is never exclusively borrowed, so borrowing it is sound
+            updated_at: unsafe { &(*data_raw).updated_at },
+            previous: last_updated_at_before_lock,
+            was_panicking: crate::sync::thread::panicking(),
+        };
 
         // SAFETY: We have claimed mutable access by swapping `None` into
         // `updated_at`, so the retained fields are exclusively borrowed.
